@@ -16,7 +16,7 @@ pub fn prop() -> Prop {
     Prop {
         id: "C12",
         level: "exploration",
-        rule: "(1) the call slice: a prelude of functions with 0-2 parameters and 0-2 locals (a marker function that prints its argument so evaluation order is observable, non-commutative bodies, an accumulating recursion, a function taking a function, a function returning a function) and every expression of up to N nodes over calls of them in operand, argument, array-element, condition and initialiser positions, compared with the reference interpreter; (2) a generated family of 0..4 parameters x 0..4 locals x every pending-operand shape, incl. empty bodies and locals in sibling blocks; an arity ladder (every parameter count up to 12 and around every power of two up to the 255 the call instruction carries, x 0/1/3 locals, every parameter read back); (2c) rebinding: a name holding a function is given another one (assignment, `stel`, a second declaration, through a function, in a branch, in a loop) while call sites compiled earlier are still to run; (3) directed recursion: self and mutual recursion with 0, 1 and 2 pending operands per level to depth 1, 2, 3, 10, 200, 5 000, 20 000 and across the 65 535-slot limit (beyond the limit: an error, never a wrong value). Non-trivial = at least one user function call executed and defined by the model; distinct = distinct texts",
+        rule: "(1) the call slice: a prelude of functions with 0-2 parameters and 0-2 locals (a marker function that prints its argument so evaluation order is observable, non-commutative bodies, an accumulating recursion, a function taking a function, a function returning a function) and every expression of up to N nodes over calls of them in operand, argument, array-element, condition and initialiser positions, compared with the reference interpreter; (2) a generated family of 0..4 parameters x 0..4 locals x every pending-operand shape, incl. empty bodies and locals in sibling blocks; an arity ladder (every parameter count up to 12 and around every power of two up to the 255 the call instruction carries, x 0/1/3 locals, every parameter read back); (2c) rebinding: a name holding a function is given another one (assignment, `stel`, a second declaration, through a function, in a branch, in a loop) while call sites compiled earlier are still to run; (3b) the deepest recursion that still works: for 0..4 locals x 0..2 pending operands the largest depth that yields a value is searched and every depth from 8 below to 3 above it is run (closed form or refusal, nothing else); (3) directed recursion: self and mutual recursion with 0, 1 and 2 pending operands per level to depth 1, 2, 3, 10, 200, 5 000, 20 000 and across the 65 535-slot limit (beyond the limit: an error, never a wrong value). Non-trivial = at least one user function call executed and defined by the model; distinct = distinct texts",
         assumptions: &["arity mismatch is unspecified (U6) and not compared", "beyond 65 535 live stack slots only 'an error, not a wrong value or crash' is required (U9)"],
         run,
         replay,
@@ -285,7 +285,81 @@ fn deep() -> Vec<(String, u64, u64, String)> {
     v
 }
 
+/// The deepest recursion that still works: for functions with 0..4 locals (all read at the deepest level and
+/// again on the way back) and 0..2 operands pending around the call, the largest depth that yields a value is
+/// searched, and EVERY depth from 8 below it to 3 above it is run: the answer is the closed form or a refusal,
+/// never another value and never a crash.
+fn limit_sweep(sh: &mut Shard) {
+    use crate::outcome::run_text;
+    for nlocals in 0..=4usize {
+        for pending in 0..=2usize {
+            if !sh.mine() {
+                continue;
+            }
+            let names = ["a", "b", "c", "d"];
+            let mut body = String::new();
+            let mut prev = "n".to_string();
+            for l in 0..nlocals {
+                body.push_str(&format!("stel {} = {} + 1; ", names[l], prev));
+                prev = names[l].to_string();
+            }
+            // at the bottom: the sum of all locals (n = 0 there: 1 + 2 + ... ); on the way back: + 1 per level through the last local
+            let sum_bottom: i64 = (1..=nlocals as i64).sum();
+            let all: String = if nlocals == 0 { "0".into() } else { names[..nlocals].join(" + ") };
+            let step = if nlocals == 0 { "1".to_string() } else { format!("{} - {} + 1", names[nlocals - 1], names[nlocals - 1]) };
+            let def = format!("functie f(n) {{ {body}als n == 0 {{ antwoord {all} }} antwoord f(n - 1) + {step} }}");
+            let call = |d: i64| match pending {
+                0 => format!("{def} f({d})"),
+                1 => format!("{def} 1000000000 + f({d})"),
+                _ => format!("{def} stel r = [7, 8, f({d})]; r[0] * 1000000000 + r[2]"),
+            };
+            let expect = |d: i64| match pending {
+                0 => sum_bottom + d,
+                1 => 1_000_000_000 + sum_bottom + d,
+                _ => 7_000_000_000 + sum_bottom + d,
+            };
+            sh.begin(&|| format!("limit sweep: {nlocals} locals, {pending} pending"));
+            sh.count("family:limit-sweep");
+            let run = |d: i64| run_text(&call(d), RunOpts { budget: Some(50_000_000), ledger: false, trace: false, render: true });
+            let is_value = |d: i64| matches!(run(d).end, ImplEnd::Value(_));
+            // largest depth that yields a value (values below it, refusals above it)
+            let (mut lo, mut hi) = (1i64, 70_000i64);
+            if !is_value(lo) {
+                sh.violation("limit-sweep", json!({"program": call(lo)}), "depth 1 does not yield a value".into());
+                continue;
+            }
+            while lo + 1 < hi {
+                let mid = (lo + hi) / 2;
+                if is_value(mid) {
+                    lo = mid;
+                } else {
+                    hi = mid;
+                }
+            }
+            sh.add("limit-sweep-deepest", lo as u64);
+            sh.nontrivial(&(nlocals, pending));
+            for d in (lo - 8).max(1)..=lo + 3 {
+                let o = run(d);
+                let bad = match &o.end {
+                    ImplEnd::Value(v) => *v != expect(d).to_string(),
+                    ImplEnd::Error(_) => d <= lo - 8,
+                    _ => true,
+                };
+                if bad {
+                    sh.violation(
+                        "limit-sweep",
+                        json!({"program": call(d), "depth": d, "deepest_depth_that_yields_a_value": lo}),
+                        format!("depth {d} (the deepest that yields a value is {lo}): {}, expected {} or a refusal", impl_end_text(&o.end), expect(d)),
+                    );
+                    break;
+                }
+            }
+        }
+    }
+}
+
 fn run(sh: &mut Shard) {
+    limit_sweep(sh);
     LEDGER.with(|c| c.set(false));
     for prog in rebinding().into_iter().chain(shapes()).chain(arity_ladder()) {
         if !sh.mine() {
